@@ -6,6 +6,7 @@ package main
 // 0 = held, 1 = VIOLATION, 2 = harness/build trouble.
 
 import (
+	"context"
 	"encoding/json"
 	"fmt"
 	"os"
@@ -545,7 +546,9 @@ func replayReproduces(path string) bool {
 	if err != nil {
 		return true
 	}
-	cmd := exec.Command(self, "replay", path)
+	ctx, cancel := context.WithTimeout(context.Background(), 15*time.Minute)
+	defer cancel()
+	cmd := exec.CommandContext(ctx, self, "replay", path)
 	cmd.Env = append(os.Environ(), "GOMAXPROCS=4")
 	err = cmd.Run()
 	if ee, ok := err.(*exec.ExitError); ok {
@@ -567,7 +570,11 @@ func minimiseInChild(c *Check, sc *Scenario, v Violation) (*Scenario, Violation)
 	self, _ := os.Executable()
 	out := tmp.Name() + ".out"
 	defer os.Remove(out)
-	cmd := exec.Command(self, "minimise", tmp.Name(), out)
+	// hard limit: one candidate can take arbitrarily long (see minimiser.checkpoint); the child
+	// is killed and the best scenario it had saved is used
+	ctx, cancel := context.WithTimeout(context.Background(), time.Duration(envInt("VERIF_MIN_SECONDS", 60)+120)*time.Second)
+	defer cancel()
+	cmd := exec.CommandContext(ctx, self, "minimise", tmp.Name(), out)
 	cmd.Env = append(os.Environ(), "GOMAXPROCS=4")
 	cmd.Run()
 	ob, err := os.ReadFile(out)
